@@ -2,6 +2,8 @@
 incomplete set fails the whole set and starts no payment."""
 from .. import sym
 from ..harness import ctx, Report, finish
+from ..values import Adt
+from ..sched import Violation
 from ..scenario import InvoiceSpec, HtlcSpec, std_htlcs
 from ..monitors import SameResolution, NoPayAfterRejection, MismatchRejection, Coverage
 from . import scen_common
@@ -58,6 +60,13 @@ def cfg_conflict(kind):
                deliver_in_order=False)
     return cfg, pc
 
+class AllSettledWhenPaid:
+    """Configurations whose stored state is Succeeded: every response is a Resolve."""
+    def on_response(self, m, sc, k, resp):
+        if not (isinstance(resp, Adt) and resp.variant == 'Resolve'):
+            raise Violation('different-resolutions', {'htlc': k, 'response': resp.variant if isinstance(resp, Adt) else repr(resp),
+                                                      'what': 'a replayed part of a paid invoice was not settled'}, 'htlc.response', 'paid-but-failed')
+
 class ConflictInit:
     def on_init(self, m, sc):
         m.st.roots['conflict_pairs'] = [(0, 1)]
@@ -101,6 +110,13 @@ def main(tier, seed, args):
         pc.append(sym.and_(sym.le(0, s.cltv_rel), sym.le(s.cltv_rel, 2000)))
     configs.append(('stored[2 htlcs, pending, rejecting]', cfg, pc, [SameResolution(), NoPayAfterRejection(('expiry',)),
                                                                       Coverage(['pay', 'response:Fail(201a)'])], {}))
+    # replayed parts of a payment that is already recorded as paid: whatever their fields say now, each of them is
+    # settled with the recorded preimage -- none is failed while the others are settled
+    cfg, pc = cfg_stored('succeeded')
+    for s in cfg['htlcs']:
+        s.cltv_rel = sym.var('rel%d' % s.idx)
+        pc.append(sym.and_(sym.le(0, s.cltv_rel), sym.le(s.cltv_rel, 2000)))
+    configs.append(('stored[2 htlcs, succeeded, rejecting]', cfg, pc, [SameResolution(), AllSettledWhenPaid(), Coverage(['response:Resolve'])], {}))
     scen_common.run_configs(rep, PID, c, configs, budget)
     finish(rep, [c], './check C07 --tier ' + tier)
 
